@@ -12,7 +12,10 @@ import (
 )
 
 // nestNames is the finite name domain of the unrolled (C08/C09) checks.
-var nestNames = []string{"a", "b", "c", "d", "script", "style", "br", "title"}
+// `q"` stands for the names on which normaliseElementName is not the identity
+// (strconv.QuoteToASCII escapes the quote, as it does backslashes, control
+// characters and non-ASCII bytes).
+var nestNames = []string{"a", "b", "c", "d", "script", "style", "br", "title", `q"`}
 
 var voidElements = []string{"area", "base", "br", "col", "embed", "hr", "img", "input", "link", "meta", "source", "track", "wbr"}
 
